@@ -18,8 +18,13 @@ var VerifTickBudget int64
 var VerifTicks int64
 
 func verifTick() {
+	// counts only while a budget is set, so that concurrent executions (which set none)
+	// never write the counters
+	if VerifTickBudget <= 0 {
+		return
+	}
 	VerifTicks++
-	if VerifTickBudget > 0 && VerifTicks > VerifTickBudget {
+	if VerifTicks > VerifTickBudget {
 		panic(VerifBudgetExceeded{Ticks: VerifTicks})
 	}
 }
